@@ -36,6 +36,40 @@ def run(res, proofs_ok, proofs_why):
         msgs = [x for x in got if not x.startswith("ORDER")]
         if msgs != m.split():
             diffs.append({"case": ln, "impl": i, "model": m})
+    # the same scripts with the loop left to its own cadence (`polt`: its wait ends by time-out, nobody writes to
+    # its mailbox between two polls): whatever the loop does while it waits, a request must not reach chronyd
+    # before the as-of reading of the poll it is answered in
+    # (scripts of tracking replies and of polls that find no socket only: the other kinds of non-answer make the
+    # client library retry on its own timers, which the virtual clock of this harness does not drive faithfully)
+    tscripts = []
+    for _ in range(25 if res.tier == "quick" else 300):
+        start = rng.randrange(10, 10 ** 6) * P.NS
+        cfg = rng.choice([-1, 0x50484330])
+        steps, t = [], start + P.NS
+        for _k in range(rng.randrange(2, 8)):
+            if rng.random() < 0.4:
+                steps.append((t, rng.choice([3, 6, 6]), rng.choice([0, 1000]), rng.choice([0, 1000, 2 * P.NS]), -1, 7, 1))
+            else:
+                steps.append((t, 1, rng.choice([0, 1000, 10 ** 6, 3 * 10 ** 7]), 0, rng.choice([-1, 0, 12345]), rng.choice([cfg if cfg >= 0 else 7, 7]), rng.randrange(1, 60000)))
+            t += P.NS + rng.randrange(P.NS)
+        tscripts.append((start, cfg, steps))
+    tl = ["polt" + P.line_of(*sc)[3:] for sc in tscripts]
+    timpl = c.run_lines_in_namespace(c.build_harness("debug")[0], tl, timeout=1500)
+    tmodel = c.run_model([P.line_of(*sc) for sc in tscripts])
+    for s, ln, i, m in zip(tscripts, tl, timpl, tmodel):
+        res.evaluations += 1
+        res.count("gen:poll loop on its own cadence")
+        got = i.split()
+        order = [x for x in got if x.startswith("ORDER")]
+        start, cfg, steps = s
+        want_asof = [st[0] for st in steps if st[1] == 1 and not (cfg >= 0 and st[5] == cfg and st[4] < 0)]
+        got_asof = [int(x.split(":")[1]) for x in got if x.startswith("D:")]
+        if order != ["ORDER:ok"] or got_asof != want_asof:
+            bad.append({"case": ln, "impl": i, "model": m,
+                        "why": ["poll loop on its own cadence: a request reached chronyd before the as-of reading of the poll it was answered in, or the as-of is not that reading "
+                                "(%s; as-of %s, pre-query readings %s)" % (order, got_asof[:4], want_asof[:4])]})
+        if [x for x in got if not x.startswith("ORDER")] != m.split():
+            diffs.append({"case": ln, "impl": i, "model": m})
     # client side
     binary = c.build_harness("debug")[0]
     olines, mlines = [], []
